@@ -8,7 +8,59 @@ use serde_json::{json, Map, Value};
 
 pub const FORMATS: [&str; 3] = ["ascii", "latex", "han"];
 
+// ---- owned copies of the shipped formats (a quarter of the commands): a format need not be the `static` instance, and
+// two different formats may live at the same address one after the other
+thread_local! {
+    static OWNED_E: std::cell::RefCell<Option<(String, Box<EFmt<&'static str>>)>> = const { std::cell::RefCell::new(None) };
+    static OWNED_L: std::cell::RefCell<Option<(String, Box<LFmt>)>> = const { std::cell::RefCell::new(None) };
+}
+fn static_enum(name: &str) -> &'static EFmt<&'static str> {
+    match name {
+        "ascii" => &ef::FORMAT_ASCII,
+        "latex" => &ef::FORMAT_LATEX,
+        "han" => &ef::FORMAT_HAN,
+        o => panic!("unknown format {o}"),
+    }
+}
+fn fresh_lex(name: &str) -> LFmt {
+    match name {
+        "ascii" => lf::create_format_ascii(),
+        "latex" => lf::create_format_latex(),
+        "han" => lf::create_format_han(),
+        o => panic!("unknown format {o}"),
+    }
+}
+/// `Some(fmt)`: from now on (this thread, until the next call) `enum_format(fmt)` / `lex_format(fmt)` are freshly allocated
+/// copies; just before, copies of ANOTHER format were allocated, used once and dropped (the allocator usually hands the
+/// same block out again).  `None`: back to the static instances.
+pub fn set_owned(fmt: Option<&str>) {
+    use narsese::conversion::inter_type::lexical_fold::TryFoldInto;
+    OWNED_E.with(|o| *o.borrow_mut() = None);
+    OWNED_L.with(|o| *o.borrow_mut() = None);
+    if let Some(name) = fmt {
+        let other = match name { "ascii" => "han", "han" => "latex", _ => "ascii" };
+        {
+            let e = Box::new(static_enum(other).clone());
+            let l = Box::new(fresh_lex(other));
+            let text = static_enum(other).format_term(&narsese::enum_narsese::Term::new_inheritance(
+                narsese::enum_narsese::Term::new_word("A"), narsese::enum_narsese::Term::new_word("B")));
+            let _ = std::panic::catch_unwind(std::panic::AssertUnwindSafe(|| {
+                let _ = e.parse::<narsese::enum_narsese::Narsese>(&text);
+                if let Ok(v) = l.parse(&text) {
+                    let _ = v.try_fold_into(&*e);
+                }
+            }));
+        }
+        OWNED_E.with(|o| *o.borrow_mut() = Some((name.to_string(), Box::new(static_enum(name).clone()))));
+        OWNED_L.with(|o| *o.borrow_mut() = Some((name.to_string(), Box::new(fresh_lex(name)))));
+    }
+}
 pub fn enum_format(name: &str) -> &'static EFmt<&'static str> {
+    // the reference stays valid until the next `set_owned` on this thread; nothing in a command outlives the command
+    let owned = OWNED_E.with(|o| o.borrow().as_ref().filter(|(n, _)| n == name).map(|(_, b)| &**b as *const EFmt<&'static str>));
+    if let Some(p) = owned {
+        return unsafe { &*p };
+    }
     match name {
         "ascii" => &ef::FORMAT_ASCII,
         "latex" => &ef::FORMAT_LATEX,
@@ -17,6 +69,10 @@ pub fn enum_format(name: &str) -> &'static EFmt<&'static str> {
     }
 }
 pub fn lex_format(name: &str) -> &'static LFmt {
+    let owned = OWNED_L.with(|o| o.borrow().as_ref().filter(|(n, _)| n == name).map(|(_, b)| &**b as *const LFmt));
+    if let Some(p) = owned {
+        return unsafe { &*p };
+    }
     match name {
         "ascii" => &lf::FORMAT_ASCII,
         "latex" => &lf::FORMAT_LATEX,
